@@ -15,6 +15,7 @@ from .. import core, known, obs, seeds, worker
 from ..ref import calref, tzref
 
 ID = "C12"
+AMBIENT = {"locale": "fr"}     # this module varies the other setting itself
 US = 1_000_000
 UNITS = ("second", "minute", "hour", "day", "week", "month", "year", "decade", "century")
 DATE_UNITS = ("day", "week", "month", "year", "decade", "century")
